@@ -450,6 +450,10 @@ def run(ctx):
       s = behaviour_to_stream(b, rng, len(mine))
       s["source"] = name
       mine.append(s)
+    mine.sort(key=lambda x: (x["df"], x["lines"]))      # TLC prints in worker order: make the sample reproducible
+    for idx, s in enumerate(mine):
+      s["parity"] = idx % 3 != 0
+      s["align"] = [None, "left", "center", "right", "auto"][idx % 5]
     ctx.count("behaviours:" + name, len(mine))
     # quick tier: a seeded sample of the behaviours is replayed (all of them at the thorough tier, up to 6000 per model)
     limit = 6000 if thorough else 200
@@ -540,7 +544,7 @@ def run(ctx):
   if ok_recs:
     s, a = aux[ok_recs[0]["id"]]
     ctx.sample({"scc": a["text"], "obs": ok_recs[0]["obs"][:4], "pars": ok_recs[0]["pars"]})
-  ctx.exhaustive = thorough
+  ctx.exhaustive = False   # exhaustive over the small generator models only (replay capped at 6000 behaviours per model)
   ctx.assume("CTA-608 semantics as transcribed in spec/Cea608Decoder.tla (47 CFR 15.119 wording for RU from another mode, "
              "PAC in roll-up, mid-row cell, BS, extended characters); columns are not compared (property: rows and characters)")
   ctx.assume("colour / italics / underline are compared on non-space characters only")
